@@ -35,6 +35,9 @@ HOMOGENEOUS = ["SmoothConvexFunction", "SmoothStronglyConvexFunction", "ConvexFu
 
 INVALID_RET = ["Primal", "both", "", "DUAL ", 1, "d", "du", "ual", "prim", "rima", "l", "dual,primal", "primal_dual",
                "dualprimal", " dual", None, 0, True, ("dual",), ["primal"]]
+# option values of the primitive steps that their docstrings say are rejected with a ValueError
+INVALID_NOTION = ["Relative", "rel", "", "abs", "Absolute", "relative ", None, 0, 1, "both", "absolute,relative"]
+INVALID_OPT = ["PD_gap", "PD_gapIV", "pd_gapi", "PD_gapI ", "", None, 1, "I", "PD_gap1", "gapII"]
 INVALID_DRH = ["logdet", "logdetx", "Trace", "tracee", "logdet1.5", "svd", 3, "trac", "race", "t", "logde", "log", "det2",
                "logdet2x", "trace1", "TRACE", 1.5, ["trace"]]
 
@@ -64,8 +67,8 @@ def _case(draw):
                 # the same problem object is first solved successfully, then made infeasible and solved again
                 "prior_solve": how != "unbounded" and draw(st.booleans())}
     m = draw(gen.model(max_steps=1, allow_extras=False))
-    which = draw(st.sampled_from(["ret", "drh"]))
-    val = draw(st.sampled_from(INVALID_RET if which == "ret" else INVALID_DRH))
+    which = draw(st.sampled_from(["ret", "drh", "ret", "drh", "notion", "opt"]))
+    val = draw(st.sampled_from({"ret": INVALID_RET, "drh": INVALID_DRH, "notion": INVALID_NOTION, "opt": INVALID_OPT}[which]))
     return {"kind": "options", "instrs": m["instrs"], "which": which, "value": val}
 
 
@@ -87,6 +90,10 @@ def fixed_cases(tier):
         out.append({"kind": "options", "instrs": base, "which": "ret", "value": v})
     for v in INVALID_DRH:
         out.append({"kind": "options", "instrs": base, "which": "drh", "value": v})
+    for v in INVALID_NOTION:
+        out.append({"kind": "options", "instrs": base, "which": "notion", "value": v})
+    for v in INVALID_OPT:
+        out.append({"kind": "options", "instrs": base, "which": "opt", "value": v})
     for solver in ("CLARABEL", "SCS"):
         for how in ("unbounded", "infeasible_norm", "infeasible_pair"):
             out.append({"kind": "nosol", "how": how, "instrs": base, "solver": solver, "c": 1, "pi": 0, "verbose": 0,
@@ -327,7 +334,31 @@ def check_nosol(case, ctx):
         expect_must_be_solved(ctx, obj, kind, kind_acc, "after_none")
 
 
+def check_step_option(case, ctx):
+    import PEPit.primitive_steps as PS
+    from PEPit import PEP
+    from PEPit.functions import SmoothStronglyConvexFunction, ConvexFunction
+    ctx.label("options:" + case["which"])
+    ctx.nontrivial(True)
+    with prog.quiet():
+        pep = PEP()
+        x0 = pep.set_initial_point()
+        try:
+            if case["which"] == "notion":
+                f = pep.declare_function(SmoothStronglyConvexFunction, mu=0.1, L=1.0)
+                out = PS.inexact_gradient_step(x0, f, gamma=1.0, epsilon=0.3, notion=case["value"])
+            else:
+                f = pep.declare_function(ConvexFunction)
+                out = PS.inexact_proximal_step(x0, f, 1.0, opt=case["value"])
+        except Exception:  # noqa
+            return
+    ctx.fail("invalid-option-accepted:%s:%r" % (case["which"], case["value"]),
+             "%s=%r was accepted by the step instead of being rejected" % (case["which"], case["value"]))
+
+
 def check_options(case, ctx):
+    if case["which"] in ("notion", "opt"):
+        return check_step_option(case, ctx)
     env = prog.run_program(case["instrs"])
     # make sure the model is bounded first (otherwise solve returns None before validating anything)
     ok = solve(env, verbose=0, solver="CLARABEL")
